@@ -34,6 +34,13 @@ EXTRA = '''
 This is a later round: the obvious sites are used up. Look for changes of these kinds: (a) an ERROR PATH - an except/finally block, a rollback, a cleanup after a failure, the state left behind by an operation that raised half-way; (b) a HISTORY dependence - something that only shows in a second session / after a restart of the process / on the second use of an object / after a file written earlier is read back; (c) a Python pitfall - a mutable default argument, `is` versus `==`, bool being an int, str versus bytes, dict ordering, a generator consumed twice, a late-binding closure, shallow versus deep copy, `or` on a falsy but valid value; (d) a platform interaction - relative versus absolute paths, `~`, the working directory, an environment variable, file permissions, an existing versus a missing file or directory; (e) TWO COOPERATING SITES in different modules that each look harmless alone. Do not use `git stash` (the stash is shared between worktrees); to test on the clean tree use `git diff > {d}/mutants/x.diff; git checkout -- cincoconfig; ...; git apply`.
 '''
 
+EXTRA5 = '''
+
+This is a late round: many sites are used up (see the list above). Look for changes of these kinds: (a) FEATURE INTERACTION - the property's mechanism meeting another feature of the library: environment variables, command-line overrides, include files, feature flags, config types (make_type) with their own key file, virtual fields and instance methods, dynamic schemas, friendly field names, sensitive masks, `validate=False` loads, `asdict`/`to_tree` options, `reset_value`, `is_value_defined`, stubs; (b) a FORMAT-specific detail - how BSON, XML (type attributes, root tag), YAML (root key, tags, anchors), pickle or JSON (pretty / compact) encode or decode one particular kind of value (empty containers, None, booleans versus integers, bytes, non-ASCII text, nested lists, very large or negative numbers, floats like 1e22 / -0.0 / nan); (c) the SHAPE of the schema - deep nesting, a list of lists, a dict of lists, a config type nested in a config type, a schema reused in two places, a field object reused in two schemas, an empty sub-schema, keys that differ only in case or in '_' versus '-'; (d) an API SPELLING the tests do not use - item versus attribute access, dotted paths, negative indices, slices, keyword versus positional arguments, iterating while mutating, `in`, `len`, `==`, `copy`; (e) a change in cincoconfig/support.py, cincoconfig/stubs.py, a formats module or a field base class whose effect on THIS property only shows indirectly. Do not use `git stash` (the stash is shared between worktrees); to test on the clean tree use `git diff > {d}/mutants/x.diff; git checkout -- cincoconfig; ...; git apply`.
+'''
+if rnd.isdigit() and int(rnd) >= 5:
+    EXTRA = EXTRA5
+
 props = {}
 for line in open(os.path.join(HERE, "properties.jsonl")):
     p = json.loads(line)
